@@ -209,6 +209,12 @@ impl<'p> Painter<'p> {
                 BgShouldFill::With(BgFillMethod::Spaces),
             );
         } else {
+            // In color_only mode the visible text of a line must not change: no padding with spaces.
+            let fill_method = if self.config.color_only {
+                BgFillMethod::TryAnsiSequence
+            } else {
+                BgFillMethod::Spaces
+            };
             Painter::paint_lines(
                 lines,
                 &syntax_style_sections,
@@ -218,7 +224,7 @@ impl<'p> Painter<'p> {
                 self.config,
                 &mut self.line_numbers_data.as_mut(),
                 None,
-                BgShouldFill::With(BgFillMethod::Spaces),
+                BgShouldFill::With(fill_method),
             );
         }
     }
